@@ -103,14 +103,15 @@ func runC07(op string, in []string) string {
 	})
 }
 
-// c07Returns reports whether the real clip call of the case (op, in) returns.
-// clip.line can loop for ever (known finding C07-corner-rounding-nontermination: near a corner the two
-// interpolations of the Cohen-Sutherland loop can round a clipped end point alternately a hair outside
-// one edge and the other).  A looping goroutine cannot be stopped, so normally the caller just makes the
-// call itself — no timeout, no false alarm on a loaded machine.  Only when a replica of the loop's control
-// flow with the same float arithmetic (c07Cycles) predicts that the loop is not left, the REAL call is
-// first made in a child process (this executable in probe mode) that is killed after 10 seconds: the
-// outcome `hang` is what was actually observed of the real code, and nothing is left spinning.
+// c07Returns reports whether the real clip call of the case (op, in) returns: the watchdog for the loop of
+// clip.line.  Before the rounding guard was added (finding C07-corner-rounding-nontermination, fixed:
+// an end point is clipped at most twice, then snapped onto the box) the loop could alternate for ever
+// between two edges at a corner.  A looping goroutine cannot be stopped, so normally the caller just
+// makes the call itself — no timeout, no false alarm on a loaded machine.  Only when a replica of the
+// loop WITHOUT the guard, with the same float arithmetic (c07Cycles), does not leave the loop — exactly
+// the inputs on which the guard matters — the REAL call is first made in a child process (this
+// executable in probe mode) that is killed after 10 seconds: the outcome `hang` is what was actually
+// observed of the real code (the driver answers `propfail hang`), and nothing is left spinning.
 func c07Returns(lines []orb.LineString, box orb.Bound, open bool, op string, in []string) bool {
 	predicted := false
 	for _, ls := range lines {
@@ -173,8 +174,9 @@ func c07Code(b orb.Bound, p orb.Point, open bool) int {
 	return code
 }
 
-// c07Cycles: does the inner loop of clip.line fail to finish within 64 rounds on some segment of ls?
-// (Exact arithmetic needs at most four.)  Used only to decide HOW the real code is called.
+// c07Cycles: does the inner loop of clip.line, taken WITHOUT its two-clips-per-end guard, fail to finish
+// within 64 rounds on some segment of ls?  (Exact arithmetic needs at most four.)  Used only to decide
+// HOW the real code is called.
 func c07Cycles(box orb.Bound, ls orb.LineString, open bool) bool {
 	for i := 1; i < len(ls); i++ {
 		a, b := ls[i-1], ls[i]
